@@ -330,8 +330,12 @@ func (t Table) matchingHosts(req *http.Request, globCache *GlobCache) (hosts []s
 		//Get Compiled Glob from LRU cache
 		g, err := globCache.Get(normpat)
 		if err != nil {
+			// not a valid glob pattern: compare literally
 			log.Print("[Error] Compiling glob - ", err)
-			g = glob.MustCompile(normpat)
+			if normpat == host {
+				hosts = append(hosts, pattern)
+			}
+			continue
 		}
 
 		if g.Match(host) {
